@@ -1,0 +1,15 @@
+//go:build verif
+// +build verif
+
+package store
+
+// This file is compiled only with the "verif" build tag (verification harnesses in /verif).
+
+// VerifPendingWrites is the number of records accepted by the write queue (tmp.data) whose
+// asynchronous transfer into the bitcask files and the LevelDB index has not completed yet.
+func VerifPendingWrites(db *ChainDatabase) int {
+	q := db.Beansdb.Queue
+	q.IndexRW.RLock()
+	defer q.IndexRW.RUnlock()
+	return len(q.Index)
+}
